@@ -1,21 +1,21 @@
 CONSTANTS
-  Types <- T1
-  TypeSeq <- T1s
+  Types <- T2
+  TypeSeq <- T2s
   Owners <- O2
-  SubOpts <- OptWeak
-  AutoOpts <- AutoTwo
-  RVs = {"none", "remove"}
-  UnsubModes = {"handler", "pair"}
+  SubOpts <- OptOnce
+  AutoOpts <- AutoNone
+  RVs <- RVremove
+  UnsubModes = {"handler", "handlerT", "eid", "eidT", "pair"}
   Forms = {"inst"}
   NoErrs = {FALSE}
-  RaiseTypes <- TA
-  SubTypes <- TA
-  MaxSubs = 3
-  MaxRaises = 1
+  RaiseTypes <- TAB
+  SubTypes <- TAB
+  MaxSubs = 2
+  MaxRaises = 2
   MaxUnsubs = 1
   MaxDepth = 2
   MaxOps = 1
-  WithDrop = TRUE
+  WithDrop = FALSE
   Probes = 1
   D = 3
 INIT Init
